@@ -67,4 +67,6 @@ C05Inv == R.kind = "prog" =>
             /\ \A i \in 1..Len(R.syl) :
                  /\ Honoured(R.syl[i])
                  /\ (R.syl[i].ok => R.syl[i].outBytesEqualDegree)        \* the same instances, whichever way they were written
+\* a note-name text on its own: what the converter prints is what Conv.tla says it means (key changes, recurring spellings)
+SylInv == R.kind = "syl" => Honoured(R.x)
 =============================================================================
